@@ -83,12 +83,6 @@ theorem C05_roundtrip_txn_plain (w : List Char → Nat) (t : List Char) (es : Li
 
 /-! ## non-vacuity -/
 
-example : ∀ v ∈ exprsOfTransaction exTxn, PlainV v := by
-  unfold exTxn
-  simp only [exprsOfTransaction, exprsOfPosting, exprsOfExchange, List.flatMap_cons, List.flatMap_nil, PlainV,
-    ExprParse.plainV, ExprParse.plainE]
-  decide +kernel
-
 theorem exTxn_plain : ∀ v ∈ exprsOfTransaction exTxn, PlainV v := by
   unfold exTxn
   simp only [exprsOfTransaction, exprsOfPosting, exprsOfExchange, List.flatMap_cons, List.flatMap_nil, PlainV,
